@@ -349,6 +349,114 @@ class SimEvent:
         return self.flag
 
 
+class SimCondition:
+    """threading.Condition on the scheduler (wait releases the lock, blocks
+    in virtual time, re-acquires)."""
+
+    def __init__(self, lock=None):
+        self._lock = lock if lock is not None else SimRLock()
+        self.waiters = []
+        self.name = "cond"
+        self.acquire = self._lock.acquire
+        self.release = self._lock.release
+
+    def __enter__(self):
+        return self._lock.__enter__()
+
+    def __exit__(self, *a):
+        return self._lock.__exit__(*a)
+
+    def wait(self, timeout=None):
+        s = _sim()
+        if s is None:
+            return True
+        me = s.me()
+        s.step("cond.wait", self.name)
+        # release fully (RLock depth), remember it
+        depth = getattr(self._lock, "depth", 1)
+        saved = depth
+        self._lock.depth = 1
+        self._lock.release()
+        self.waiters.append(me)
+        how = s.block("cond", self, timeout)
+        if me in self.waiters:
+            self.waiters.remove(me)
+        self._lock.acquire()
+        self._lock.depth = saved
+        return how != "timeout"
+
+    def wait_for(self, predicate, timeout=None):
+        s = _sim()
+        end = None if timeout is None or s is None else s.now + timeout
+        result = predicate()
+        while not result:
+            if end is not None:
+                rem = end - s.now
+                if rem <= 0:
+                    break
+                self.wait(rem)
+            else:
+                self.wait(None)
+            result = predicate()
+        return result
+
+    def notify(self, n=1):
+        s = _sim()
+        if s is None:
+            return
+        s.note("cond.notify", self.name)
+        for w in list(self.waiters[:n]):
+            self.waiters.remove(w)
+            s._wake(w, "notified")
+
+    def notify_all(self):
+        self.notify(len(self.waiters))
+
+    notifyAll = notify_all
+
+
+class SimSemaphore:
+    def __init__(self, value=1):
+        self.value = value
+        self.waiters = []
+        self.name = "sem"
+
+    def acquire(self, blocking=True, timeout=None):
+        s = _sim()
+        if s is None:
+            if self.value > 0:
+                self.value -= 1
+                return True
+            return False
+        me = s.me()
+        s.step("sem.acquire", self.name)
+        while self.value <= 0:
+            if not blocking:
+                return False
+            self.waiters.append(me)
+            how = s.block("sem", self, timeout)
+            if me in self.waiters:
+                self.waiters.remove(me)
+            if how == "timeout" and self.value <= 0:
+                return False
+        self.value -= 1
+        return True
+
+    def release(self, n=1):
+        s = _sim()
+        self.value += n
+        if s is not None:
+            s.note("sem.release", self.name)
+            for w in list(self.waiters[:n]):
+                self.waiters.remove(w)
+                s._wake(w, "notified")
+
+    __enter__ = acquire
+
+    def __exit__(self, *a):
+        self.release()
+
+
 class _ThreadingShim(types.ModuleType):
     def __getattr__(self, name):
         return getattr(_threading, name)
@@ -372,6 +480,9 @@ def _make_threading_shim():
     m.Lock = SimLock
     m.RLock = SimRLock
     m.Event = SimEvent
+    m.Condition = SimCondition
+    m.Semaphore = SimSemaphore
+    m.BoundedSemaphore = SimSemaphore
     return m
 
 
@@ -636,6 +747,11 @@ def bind():
                 new = SimRLock
             elif val is _threading.Event:
                 new = SimEvent
+            elif val is _threading.Condition:
+                new = SimCondition
+            elif val is _threading.Semaphore \
+                    or val is _threading.BoundedSemaphore:
+                new = SimSemaphore
             elif val is _wave:
                 new = shims["wave"]
             elif val is _datetime.datetime:
